@@ -382,7 +382,7 @@ def drive(b, doc, d, name="cases"):
 
 WIRE_NEG = ["inplace", "abortonbad", "dropmd", "shareddialsreflect", "scenariodeadline", "dirtyafterfail", "leakmd", "keepdefaults", "lastwins",
             "retryunavailable"]
-CONN_NEG = ["dialpershot", "poolignored", "ignorewarmfail", "dieonfailure"]
+CONN_NEG = ["dialpershot", "poolignored", "ignorewarmfail", "dieonfailure", "plainalways", "reflmddropped"]
 
 
 def conn_design_jobs(thorough):
@@ -401,8 +401,10 @@ def conn_describe(run, i, inv):
         what = "RunEnd:class=%s" % row.get("class")
     elif ev == "Recovered":
         what = "Recovered:%s" % row.get("ok")
-    return "conn mode=%s shared=%s clients=%s inst=%s at=%s%s" % (head.get("mode"), head.get("shared"), head.get("clients"),
-                                                                  head.get("inst"), what, (" inv=" + inv) if inv else ""), row
+    extra = "".join(" %s=%s" % (k_, head.get(k_)) for k_ in ("kind", "tls", "ttls", "needmd", "rmd", "notimeout")
+                    if head.get(k_) not in (None, False, "", "grpc"))
+    return "conn mode=%s shared=%s clients=%s inst=%s%s at=%s%s" % (head.get("mode"), head.get("shared"), head.get("clients"),
+                                                                    head.get("inst"), extra, what, (" inv=" + inv) if inv else ""), row
 
 
 def conn_slow_guard(run, head):
@@ -411,14 +413,16 @@ def conn_slow_guard(run, head):
     T = head.get("timeout") or 0
     if not T:
         return
-    slow = set(head.get("slow") or [])
+    slow = set(head.get("slow_ammo") or head.get("slow") or [])
+    wait = head.get("delayed_ms") or 0      # entries named wait<k> are answered after that long, WITHIN the timeout
     begin = {}
     for r_ in run:
         if r_["ev"] == "ShootBegin":
             begin[r_["gun"]] = (r_.get("ms", 0), r_.get("ammo"))
         elif r_["ev"] == "ShootEnd" and r_["gun"] in begin:
             t0, ammo = begin.pop(r_["gun"])
-            if ammo not in slow and r_.get("ms", 0) - t0 > T // 2:
+            extra = wait if str(ammo).startswith("wait") else 0
+            if ammo not in slow and r_.get("ms", 0) - t0 > extra + T // 4 + (T // 4 if not extra else 0):
                 raise vlib.MachineryError("conn run %s (timeout %d ms): a fast call took %d ms -- machine too slow to judge" % (
                     head.get("run"), T, r_.get("ms", 0) - t0))
 
@@ -445,7 +449,8 @@ def conn_validate(v, rows, d):
                 v.violation(sig, "connection run %s (%s, shared-client=%s/%s, %s instances): line %s is not a step of GrpcConn%s: %s" % (
                     head.get("run"), head.get("mode"), head.get("shared"), head.get("clients"), head.get("inst"), row.get("seq"),
                     (" (invariant %s)" % inv) if inv else "", json.dumps(brief(row))[:400]),
-                    replay_obj={"kind": "grpcconn", "run": {k_: head.get(k_) for k_ in ("mode", "shared", "clients", "inst", "entries", "timeout")},
+                    replay_obj={"kind": "grpcconn", "run": {k_: head.get(k_) for k_ in ("mode", "shared", "clients", "inst", "entries", "timeout", "kind", "tls",
+                                                                          "ttls", "needmd", "rmd", "authority", "notimeout")},
                                 "rejected": brief(row), "context": [brief(x) for x in run[max(1, i - 12):i + 1]]},
                     replay_name="conn%s.json" % head.get("run"))
                 validated += k
@@ -483,6 +488,15 @@ CONN_CORRUPTIONS = [
     ("a call the target answers too late is reported as 200",
      lambda run: run[0].get("mode") == "timeout",
      lambda rows: _alter_first(rows, lambda r_: r_["ev"] == "Sample" and r_["code"] == 504, lambda r_: r_.__setitem__("code", 200))),
+    ("a load call carries the reflection credentials",
+     lambda run: run[0].get("rmd") and run[0].get("mode") == "conns" and not run[0].get("needmd") or (run[0].get("rmd") and run[0].get("needmd")),
+     lambda rows: _alter_first(rows, lambda r_: r_["ev"] == "Recv", lambda r_: r_.__setitem__("reflmd", True))),
+    ("the reflection stream of a run with reflect_metadata comes without it",
+     lambda run: run[0].get("rmd"),
+     lambda rows: _alter_first(rows, lambda r_: r_["ev"] == "ReflCall", lambda r_: r_.__setitem__("reflmd", ""))),
+    ("a run whose gun speaks plaintext to a TLS target starts",
+     lambda run: run[0].get("ttls") and not run[0].get("tls"),
+     lambda rows: rows.insert(2, {"ev": "Bind", "gun": 2, "inst": 0, "ok": True, "gid": 1, "seq": 0}) or True),
     ("no successful call after the target came back",
      lambda run: run[0].get("mode") == "updown",
      lambda rows: _after_up_all_fail(rows)),
@@ -501,7 +515,7 @@ def _after_up_all_fail(rows):
 
 
 def conn_part(v, b, d, thorough):
-    r = vlib.tlc("GrpcConnMC", "GrpcConn_gen.cfg", workers=1, deadlock=False, timeout=300)
+    r = vlib.tlc("GrpcConnMC", "GrpcConn_genfull.cfg" if thorough else "GrpcConn_gen.cfg", workers=1, deadlock=False, timeout=300)
     doc = None
     for ln in r.out.splitlines():
         if ln.startswith('<<"VERIF", "'):
